@@ -13,7 +13,7 @@ import session_check as sc
 PREFIXES = ['C14.']
 
 
-def run_group_models(ctx, n):
+def run_group_models(ctx, n, pid='C14'):
     """BycycleGroup.models mirror df_features and sigs position by position (2-D and 3-D, all axis modes), judged by Trace_Pool."""
     import numpy as np
     import pool_tv as pt
@@ -29,7 +29,7 @@ def run_group_models(ctx, n):
             T = n0 * n1 if axis == (0, 1) else (n0 if axis == 0 else n1)
             case, realised = pt.run_3d(sigs, 64, (8, 12), kw, axis, [1, 2, 4][k % 3], [0.0] * T, logdir, via_group=True)
             case['ref'] = pt.reference_3d(sigs, 64, (8, 12), kw, axis)
-            case['pid'] = 'C14'
+            case['pid'] = pid
             cases.append(case)
             metas.append({'shape': [n0, n1], 'axis': str(axis), 'api': 'BycycleGroup.fit (3-D)', 'realised_completion_order': realised})
             k += 1
@@ -37,11 +37,11 @@ def run_group_models(ctx, n):
         kw = pt.kw_variant(rng, k)
         case, realised = pt.run_2d(sigs, 64, (8, 12), kw, 2, None, [0.0] * (n0 + 1), logdir, via_group=True)
         case['ref'] = pt.reference_2d(sigs, 64, (8, 12), kw)
-        case['pid'] = 'C14'
+        case['pid'] = pid
         cases.append(case)
         metas.append({'T': n0 + 1, 'api': 'BycycleGroup.fit (2-D)', 'realised_completion_order': realised})
         k += 1
-    c11.judge(ctx, cases, metas, 'C14')
+    c11.judge(ctx, cases, metas, pid)
 
 
 def run(ctx):
